@@ -265,7 +265,8 @@ class Outcome:
         return (self.verdict, tuple(sorted(self.hashes.items())), self.snap)
 
 
-def run_case(bdir, case, casedir, plan, variant="plain", extra_env=None, keep_image=None, timeout=120, cpu=20):
+def run_case(bdir, case, casedir, plan, variant="plain", extra_env=None, keep_image=None, timeout=120, cpu=20,
+             argv=None, umask=None):
     """Runs the case's tool in casedir. Outputs of a previous run are removed first."""
     binary = os.path.join(bdir, variant, "sim-" + case.tool)
     for rel in list(case.outputs.values()) + [case.out_image, case.unpack_root]:
@@ -284,10 +285,10 @@ def run_case(bdir, case, casedir, plan, variant="plain", extra_env=None, keep_im
     watch = ""
     if plan is not None:
         if case.out_image:
-            watch += "watch out %s\n" % case.out_image
+            watch += "watch out %s\nwatch out %s\n" % (case.out_image, os.path.join(casedir, case.out_image))
         if "img.sqfs" in case.argv:
             watch += "watch img img.sqfs\n"
-    r = run_sim(binary, case.argv, plan=(watch + plan) if plan is not None else None, cwd=casedir,
+    r = run_sim(binary, argv if argv is not None else case.argv, plan=(watch + plan) if plan is not None else None, cwd=casedir, umask=umask,
                 stdin=os.path.join(casedir, case.stdin) if case.stdin else None, env=env, timeout=timeout, cpu=cpu,
                 stdout_path=stdout_path)
     o = Outcome()
